@@ -271,7 +271,8 @@ class Reader:
                 if prev is not None:
                     if ident == prev:
                         self.f.add('dup-ident', '%s: directory %r holds identifier %r twice' % (treename, path, ident[:60]))
-                    elif ident < prev:
+                    elif ident < prev and not (enc == 'utf-8' and ecma_order_ok(prev, ident)):
+                        # (where byte order and the order of ECMA-119 9.3 disagree, the latter is the conforming one)
                         self.f.add('dir-order', '%s: directory %r: %r sorted after %r' % (treename, path, ident[:40], prev[:40]))
                     elif enc == 'utf-8' and not ecma_order_ok(prev, ident):
                         only_version = prev.rpartition(b';')[0] == ident.rpartition(b';')[0] and b';' in prev and b';' in ident
